@@ -470,6 +470,11 @@ template<class MeshT>
 void FileManager::writeStream(std::ostream &_ostream, const MeshT &_mesh) const
 {
     _ostream.imbue(std::locale::classic());
+    if (_mesh.needs_garbage_collection()) {
+        // entity counts and handles would not match the entities written below
+        _ostream.setstate(std::ios_base::failbit);
+        return;
+    }
     // Write header
     _ostream << "OVM ASCII" << std::endl;
 
